@@ -26,6 +26,9 @@ def run(check):
     check.run_rule('C10.R1c', lambda c: rm.rule_tables(
         c, M.merge(), 'C10.R1c', ('conc',), 'every parameter standing for two inputs passes through _concile_meta',
         witness="merge(s('a, b'), s('a, *, b=1')) must require b"))
+    check.run_rule('C10.R4m', lambda c: rm.rule_tables(
+        c, M.merge(), 'C10.R4', ('order',), 'positional buckets are filled in zip order',
+        witness="merge(s('a, *args'), s('a, b, c')) must be (a, b, c, /)"))
     check.run_rule('C10.R2', lambda c: rule_embed_buckets(c, M.embed(), {
         'kinds': None, 'clear_must': 'C10.R2', 'clear_only': 'C10.R2', 'order': 'C10.R4'}))
     check.run_rule('C10.R3', lambda c: rule_kind_restrictions(c, 'C10.R3', M.merge(), M.embed(), M.mask()))
